@@ -100,7 +100,8 @@ fn arb_case(u: &mut Unstructured) -> arbitrary::Result<WireCase> {
         4 => Blocking::Compressed(u.int_in_range(1..=70_000)?),
         _ => Blocking::Mixed(u.int_in_range(1..=70_000)?),
     };
-    Ok(WireCase { kind, cluster_id, digest, bulk_digest, deltas, blocking })
+    let twin_ids = u.ratio(1, 5)?;
+    Ok(WireCase { kind, cluster_id, digest, bulk_digest, deltas, blocking, twin_ids })
 }
 
 /// Structured input -> model message -> independent encoder -> real decoder.
